@@ -197,9 +197,9 @@ func commaItems(vs []string) []string {
 func validChain(s *jsonapi.Schema, resType, path string) bool {
 	cur := resType
 	for _, w := range strings.Split(path, ".") {
-		t := s.GetType(cur)
+		t, _ := lookupTypeIndep(s, cur)
 		rel, ok := t.Rels[w]
-		if t.Name == "" || !ok || !s.HasType(rel.ToType) {
+		if t.Name == "" || !ok || !hasTypeIndep(s, rel.ToType) {
 			return false
 		}
 		cur = rel.ToType
@@ -208,7 +208,9 @@ func validChain(s *jsonapi.Schema, resType, path string) bool {
 }
 
 func c07Verdict(u *jsonapi.URL, s *jsonapi.Schema, q url.Values) string {
-	if !s.HasType(u.ResType) {
+	// (types are looked up in the schema's own list and a type's fields are the sorted names
+	// of its maps: oracle_indep.go - not Schema.HasType / GetType / Type.Fields)
+	if !hasTypeIndep(s, u.ResType) {
 		return "resource type " + u.ResType + " is not in the schema"
 	}
 	requested := map[string][]string{}
@@ -218,7 +220,7 @@ func c07Verdict(u *jsonapi.URL, s *jsonapi.Schema, q url.Values) string {
 		}
 	}
 	for t, fs := range u.Params.Fields {
-		typ := s.GetType(t)
+		typ, _ := lookupTypeIndep(s, t)
 		if typ.Name == "" {
 			return "field selection for " + t + ", which is not a schema type"
 		}
@@ -228,20 +230,20 @@ func c07Verdict(u *jsonapi.URL, s *jsonapi.Schema, q url.Values) string {
 				return "duplicate field " + f
 			}
 			seen[f] = true
-			if f != "id" && !inList(typ.Fields(), f) {
+			if f != "id" && !inList(fieldsIndep(typ), f) {
 				return "field " + f + " is not a field of " + t
 			}
 		}
 		valid := 0
 		for _, f := range requested[t] {
-			if f == "id" || inList(typ.Fields(), f) {
+			if f == "id" || inList(fieldsIndep(typ), f) {
 				valid++
 			}
 		}
 		if valid == 0 {
 			got := append([]string{}, fs...)
 			sort.Strings(got)
-			if strings.Join(got, ",") != strings.Join(typ.Fields(), ",") {
+			if strings.Join(got, ",") != strings.Join(fieldsIndep(typ), ",") {
 				return "no valid selection for " + t + " but the entry is not all of its fields"
 			}
 		}
@@ -252,9 +254,9 @@ func c07Verdict(u *jsonapi.URL, s *jsonapi.Schema, q url.Values) string {
 		cur := u.ResType
 		names := []string{}
 		for _, rel := range path {
-			t := s.GetType(cur)
+			t, _ := lookupTypeIndep(s, cur)
 			got, ok := t.Rels[rel.FromName]
-			if t.Name == "" || !ok || got != rel || !s.HasType(rel.ToType) {
+			if t.Name == "" || !ok || got != rel || !hasTypeIndep(s, rel.ToType) {
 				return "inclusion path " + strings.Join(names, ".") + "." + rel.FromName + " is not a chain of relationships of the schema"
 			}
 			names = append(names, rel.FromName)
@@ -284,7 +286,7 @@ func c07Verdict(u *jsonapi.URL, s *jsonapi.Schema, q url.Values) string {
 		}
 	}
 	if u.IsCol {
-		typ := s.GetType(u.ResType)
+		typ, _ := lookupTypeIndep(s, u.ResType)
 		var want []string
 		for _, rule := range commaItems(q["sort"]) {
 			name := strings.TrimPrefix(rule, "-")
